@@ -17,6 +17,7 @@ struct OrderCheck {
   const RankEnv& envIn;
   const Invocation& inv;
   bool firstOnly = false; // judge only the first attempt (C09)
+  bool openEnded = false; // the attempt sequence was cut off (run ended)
   size_t pos = 0;
   bool success = false;
   bool abstained = false;
@@ -100,6 +101,8 @@ struct OrderCheck {
       std::vector<Cg*> remaining = cl;
       while (!remaining.empty()) {
         if (pos >= inv.attempts.size()) {
+          if (openEnded)
+            return true;
           for (Cg* m : remaining)
             if (silent(*m) == 0) {
               fail("fallback",
